@@ -17,9 +17,10 @@ CONSTANTS Universe,     \* selects the initial objects
           MaxLive,      \* bound on the number of live objects
           DoEmit
 
-VARIABLES live, hist
-vars == <<live, hist>>
-View == <<live, Len(hist)>>    \* the step bound depends on Len(hist)
+VARIABLES live, hist,
+          origin        \* origin[k] = j if live[k] was made by copy() of live[j], else 0
+vars == <<live, hist, origin>>
+View == <<live, origin, Len(hist)>>    \* the step bound depends on Len(hist)
 
 K1 == <<0,0,2,2>>          \* p = 1, 2 dofs
 K2 == <<0,0,1,2,2>>        \* p = 1, 3 dofs
@@ -74,30 +75,52 @@ BinarySteps(i, j) ==
   ELSE {[op |-> "tp", a |-> i, b |-> j]}
        \cup (IF G1.osh = G2.osh THEN {[op |-> "osum", a |-> i, b |-> j], [op |-> "oprod", a |-> i, b |-> j]} ELSE {})
 
+(* The one mutation a user can perform: editing a control point through the documented `coeffs` attribute.  It is offered
+   on the two sides of a copy() only (copies are independent objects by contract; other results may legitimately be
+   views).  "poke" edits the copy, "pokesrc" the object it was copied from; in both cases exactly that object becomes
+   the poked net and the other side stays what it was. *)
+Poked(G) == [G EXCEPT !.C[1][1] = Add(@, IF IsNurbs(G) THEN G.W[1] ELSE One)]
+PokeSteps == {[op |-> "poke", a |-> k, other |-> origin[k]] : k \in {k \in 1..Len(live) : origin[k] > 0}}
+             \cup {[op |-> "pokesrc", a |-> origin[k], other |-> k] : k \in {k \in 1..Len(live) : origin[k] > 0}}
+
 Steps == UNION {UnarySteps(i) : i \in 1..Len(live)} \cup UNION {BinarySteps(i, j) : i \in 1..Len(live), j \in 1..Len(live)}
 
 SmallGrid(G) ==       \* first, middle and last half point per axis
   Tab(SDim(G), LAMBDA a : LET hp == HalfPoints(G.kvs[a])  L == Len(hp) IN
                           <<Div(hp[1], R(G.dens[a])), Div(hp[IF L = 3 THEN 2 ELSE 2 + (a % (L - 2))], R(G.dens[a])), Div(hp[L], R(G.dens[a]))>>)
 
-Init == live = InitObjs /\ hist = <<>>
+Init == live = InitObjs /\ hist = <<>> /\ origin = [k \in 1..Len(InitObjs) |-> 0]
 
 Do(st) ==
   LET G == Build(StepRecipe(st)) IN
   /\ live' = Append(live, G)
+  /\ origin' = Append(origin, IF st.op = "copy" THEN st.a ELSE 0)
+  /\ hist' = Append(hist, st)
+  /\ DoEmit => LET grid == SmallGrid(G)  S == SheetD(G, grid, 1) IN
+               Emit("STEP", [hist |-> hist', res |-> [kind |-> G.kind, sdim |-> SDim(G), osh |-> G.osh], grid |-> grid,
+                             val |-> S.val, jac |-> S.jac])
+
+Poke(st) ==
+  LET G == Poked(live[st.a]) IN
+  /\ live' = [live EXCEPT ![st.a] = G]
+  /\ UNCHANGED origin
   /\ hist' = Append(hist, st)
   /\ DoEmit => LET grid == SmallGrid(G)  S == SheetD(G, grid, 1) IN
                Emit("STEP", [hist |-> hist', res |-> [kind |-> G.kind, sdim |-> SDim(G), osh |-> G.osh], grid |-> grid,
                              val |-> S.val, jac |-> S.jac])
 
 Next == /\ Len(hist) < MaxSteps /\ Len(live) < MaxLive
-        /\ \E st \in Steps : Do(st)
+        /\ \/ \E st \in Steps : Do(st)
+           \/ \E st \in PokeSteps : Poke(st)
 Spec == Init /\ [][Next]_vars
 
 -------------------------------------------------------------------------------
 AllWellFormed == \A k \in 1..Len(live) : WellFormed(live[k])
 (* the clause itself: every existing object is the same after any operation *)
-OperandsUnchanged == [][/\ Len(live') = Len(live) + 1
-                        /\ \A k \in 1..Len(live) : live'[k] = live[k]]_vars
+OperandsUnchanged == [][\/ /\ Len(live') = Len(live) + 1
+                           /\ \A k \in 1..Len(live) : live'[k] = live[k]
+                        \/ /\ Len(hist') = Len(hist) + 1 /\ hist'[Len(hist')].op \in {"poke", "pokesrc"}
+                           /\ Len(live') = Len(live)
+                           /\ \A k \in 1..Len(live) : k # hist'[Len(hist')].a => live'[k] = live[k]]_vars
 EmitInit == (DoEmit /\ hist = <<>>) => Emit("INIT", [universe |-> Universe, objs |-> live])
 ===============================================================================
